@@ -230,6 +230,19 @@ fn get_stream(ep_tok_s: &str, tsi: u64, seed: u64, nobj: u32) -> Option<Rc<Strea
     Some(st)
 }
 
+/// the 8 standard probes: 2 endpoints x (no source | source 10.0.0.7) x TSI 1,2
+fn default_probes() -> Vec<(UDPEndpoint, u64)> {
+    let mut v = Vec::new();
+    for d in [0, 1] {
+        for src in ["-", "7"] {
+            for tsi in [1u64, 2] {
+                v.push((parse_ep(&format!("{}/{}/5000", src, d)).unwrap(), tsi));
+            }
+        }
+    }
+    v
+}
+
 fn garbage() -> Vec<u8> {
     // version nibble 0: "FLUTE version 0 is not supported"
     vec![0x00, 0x00, 0x01, 0x00, 0xde, 0xad, 0xbe, 0xef]
@@ -326,7 +339,7 @@ pub struct TsiEngine {
 impl TsiEngine {
     fn new() -> TsiEngine {
         TsiEngine {
-            probes: Vec::new(),
+            probes: default_probes(),
             probe_pkts: HashMap::new(),
             live: None,
             timeout: false,
@@ -496,8 +509,8 @@ impl TsiEngine {
         let evs = self.take_events();
         let cbs = self.take_cbs();
         let res = match r {
-            Err(loc) => {
-                o.fail("push-panic", &format!("MultiReceiver::push panics at {}", loc));
+            Err(_) => {
+                // a panic is an observation (the model never panics here), not a clause of C18
                 return "PANIC".into();
             }
             Ok(Ok(())) => "ok",
@@ -552,8 +565,7 @@ impl TsiEngine {
             let l = self.live.as_mut().unwrap();
             guarded(AssertUnwindSafe(|| l.mr.cleanup(now)))
         };
-        if let Err(loc) = r {
-            o.fail("cleanup-panic", &format!("MultiReceiver::cleanup panics at {}", loc));
+        if r.is_err() {
             return "PANIC".into();
         }
         let evs = self.take_events();
@@ -594,7 +606,6 @@ impl TsiEngine {
         let Live { mr, ev, cb } = l;
         let r = guarded(AssertUnwindSafe(move || drop(mr)));
         if r.is_err() {
-            o.fail("drop-panic", "dropping the MultiReceiver panics");
             return "PANIC".into();
         }
         let evs: Vec<(bool, String)> = ev.borrow_mut().drain(..).collect();
@@ -729,6 +740,7 @@ impl TsiEngine {
 
 impl Engine for TsiEngine {
     fn reset(&mut self) {
+        self.probes = default_probes();
         self.live = None;
         self.streams.clear();
         self.spec = Spec::default();
@@ -986,10 +998,21 @@ fn filter_alphabet(dsts: &[u32]) -> Vec<String> {
     v
 }
 
-fn enumerate_fseq(ctx: &mut Ctx, eng: &mut dyn Engine, alpha: &[String], depth: usize, min_depth: usize) {
+/// all sequences over `alpha` of length min_depth..=depth, each one line (`fseq` is self-contained: fresh receiver,
+/// standard probes), cut into cases of 1000 lines so that a replay stays small
+fn enumerate_fseq(ctx: &mut Ctx, eng: &mut dyn Engine, tag: &str, alpha: &[String], depth: usize, min_depth: usize) {
+    let mut in_chunk = 0usize;
+    let mut chunk = 0usize;
     for d in min_depth..=depth {
         let total = alpha.len().pow(d as u32);
         for n in 0..total {
+            if in_chunk == 0 {
+                eng.reset();
+                ctx.case(&format!("filter-{}-{}", tag, chunk));
+                ctx.evaluations -= 1; // counted per sequence below
+                chunk += 1;
+            }
+            in_chunk = (in_chunk + 1) % 1000;
             let mut line = String::from("tsi fseq");
             let mut has_add = false;
             let mut has_rm = false;
@@ -1120,7 +1143,7 @@ fn session_case(ctx: &mut Ctx, eng: &mut dyn Engine, rng: &mut Rng, id: &str, or
             ctx.step(eng, &line);
             continue;
         }
-        if r < 44 && ticks < max_ticks {
+        if r < 70 && ticks < max_ticks {
             ticks += 1;
             ctx.step(eng, "tsi tick");
             // some sessions get fresh data right after the time-out period, the others expire at the next cleanup
@@ -1190,7 +1213,7 @@ fn session_case(ctx: &mut Ctx, eng: &mut dyn Engine, rng: &mut Rng, id: &str, or
 pub fn run(ctx: &mut Ctx, eng: &mut dyn Engine) {
     let thorough = ctx.tier_thorough;
     let (d_full, d_one) = if thorough { (5usize, 6usize) } else { (4usize, 5usize) };
-    let (n_iso, n_lis, n_exp, n_race, race_n) = if thorough { (1500, 1500, 250, 12, 20000) } else { (150, 150, 30, 3, 4000) };
+    let (n_iso, n_lis, n_exp, n_race, race_n) = if thorough { (6000, 6000, 300, 12, 20000) } else { (600, 600, 40, 3, 4000) };
     ctx.rule = format!(
         "(a) EXHAUSTIVE add/remove/bypass sequences: alphabet 2 endpoints x (source 10.0.0.7 | no source) x TSI 1,2 (24 ops) to depth {}, \
          and alphabet 1 endpoint x source/no-source x TSI 1,2 (12 ops) to depth {}; after each sequence all 8 (endpoint, source?, tsi) data packets \
@@ -1203,19 +1226,23 @@ pub fn run(ctx: &mut Ctx, eng: &mut dyn Engine) {
     );
     // (a)
     let t_start = Instant::now();
+    enumerate_fseq(ctx, eng, "two-endpoints", &filter_alphabet(&[0, 1]), d_full, 0);
+    enumerate_fseq(ctx, eng, "one-endpoint", &filter_alphabet(&[0]), d_one, d_full + 1);
+    // an explicit probe list (other port, other source, other TSI) on a few hand-picked histories
     eng.reset();
-    ctx.case("filter-exhaustive");
-    let mut probes = String::from("tsi probes");
-    for d in [0, 1] {
-        for src in ["-", "7"] {
-            for tsi in [1, 2] {
-                probes.push_str(&format!(" {}/{}/5000:{}", src, d, tsi));
-            }
-        }
+    ctx.case("filter-probes");
+    ctx.step(eng, "tsi probes -/0/5000:1 7/0/5000:1 8/0/5000:1 -/0/5001:1 7/0/5001:1 -/0/5000:3 7/2/5000:1 -/1/5000:1");
+    for l in [
+        "tsi fseq a:7/0/5000:1",
+        "tsi fseq a:-/0/5000:1",
+        "tsi fseq A:7/0/5000",
+        "tsi fseq A:-/0/5000",
+        "tsi fseq a:-/0/5001:1 a:8/0/5000:1 r:8/0/5000:1 r:8/0/5000:1 a:-/0/5000:3",
+        "tsi fseq A:-/0/5000 A:-/0/5000 R:-/0/5000 a:7/0/5000:1 a:7/0/5000:1 r:7/0/5000:1",
+    ] {
+        ctx.step(eng, l);
+        ctx.evaluations += 1;
     }
-    ctx.step(eng, &probes);
-    enumerate_fseq(ctx, eng, &filter_alphabet(&[0, 1]), d_full, 0);
-    enumerate_fseq(ctx, eng, &filter_alphabet(&[0]), d_one, d_full + 1);
     ctx.exhaustive = true;
     eprintln!("tsi: filter sequences done after {:?}", t_start.elapsed());
     ctx.sample("tsi fseq a:-/0/5000:1 r:7/0/5000:1 -> 11000000 (wildcard entry accepts both sources; removing an entry that was never added is a no-op)".into());
